@@ -189,6 +189,7 @@ def concrete_check(mod, spec, vals, w=None):
     text = g["text"]
     what = g.get("what", ("meta", "ops", "modes", "vars", "params"))
     T.PyAlg.overflow = False
+    T.PyAlg.fscale = 0.0
     try:
         cases = ref_cases(w, text, lv, False)
     except Exception as e:  # noqa
